@@ -240,7 +240,7 @@ type Plan struct {
 	Schedule  []uint32    `json:"schedule,omitempty"`
 	PCT       []int       `json:"pct,omitempty"`
 	PCTPrio   []int       `json:"pctPrio,omitempty"`
-	CoRelease bool        `json:"coRelease,omitempty"`
+	CoRelease string      `json:"coRelease,omitempty"` // "" | "sched" | "inner" (race-detector runs)
 	Expect    string      `json:"expect,omitempty"` // violation signature this replay file reproduces
 	ShareCfg  bool        `json:"shareCfg,omitempty"`
 }
